@@ -488,6 +488,58 @@ func runC13R3(c *eng.Ctx, r *eng.RuleCtx) {
 	}
 	r.Check(list(consts) == list(arms), "constants = NewFromOperationSpec arms", pos, list(consts), fmt.Sprintf("operation constants {%s} and the arms of NewFromOperationSpec {%s} differ: an operation accepted by the schema would be converted to nil and silently not executed", list(consts), list(arms)))
 	r.Check(list(consts) == list(enums), "constants = schema enums", pos, list(enums), fmt.Sprintf("operation constants {%s} and the schema enums {%s} differ", list(consts), list(enums)))
+	// the enum only constrains a key that is present: wherever the schema does not also require `operation`, the
+	// document handed to the validator must always carry the key, i.e. the struct field is serialised without omitempty
+	notRequired := 0
+	var walkReq func(n any)
+	walkReq = func(n any) {
+		switch t := n.(type) {
+		case map[string]any:
+			if props, ok := t["properties"].(map[string]any); ok {
+				if op, ok := props["operation"].(map[string]any); ok {
+					if _, hasEnum := op["enum"]; hasEnum {
+						req := false
+						if lst, isL := t["required"].([]any); isL {
+							for _, v := range lst {
+								if v == "operation" {
+									req = true
+								}
+							}
+						}
+						if !req {
+							notRequired++
+						}
+					}
+				}
+			}
+			for _, v := range t {
+				walkReq(v)
+			}
+		case []any:
+			for _, v := range t {
+				walkReq(v)
+			}
+		}
+	}
+	walkReq(doc)
+	if opFld := p.Field(pkgPatch, "OperationSpec", "Operation"); opFld == nil {
+		r.Unknown("anchor:OperationSpec.Operation", token.NoPos, "field not found")
+	} else {
+		tagOK := true
+		if st, ok := p.Named(pkgPatch, "OperationSpec").Underlying().(*types.Struct); ok {
+			for i := 0; i < st.NumFields(); i++ {
+				if st.Field(i) == opFld {
+					jt := reflect.StructTag(st.Tag(i)).Get("json")
+					if strings.Contains(jt, "omitempty") || jt == "-" {
+						tagOK = false
+					}
+				}
+			}
+		}
+		r.Check(notRequired == 0 || tagOK, "operation key always present for the enum check", opFld.Pos(),
+			"the `operation` key is always serialised (or required in every schema branch)",
+			fmt.Sprintf("%d schema branch(es) constrain `operation` by enum without requiring it, and OperationSpec.Operation is serialised with omitempty: a document without (or with a misspelled) `operation` key passes validation, is converted to a nil operation and makes the execution panic after earlier documents were applied", notRequired))
+	}
 	// type switch of ExecuteOperation
 	if f := r.NeedFunc(pkgPatch + ".(*ObjectPatcher).ExecuteOperation"); f != nil {
 		info := f.Pkg.TypesInfo
